@@ -139,6 +139,24 @@ def display_small_documents(seed):
                      why='operator words of another language: %r' % alien)
     except Exception as e:      # noqa
         fail(input=src, why=repr(e))
+    # a relation the document itself redeclares is still a relation: the
+    # equation reads the same with and without the redefinitions (the new
+    # meanings are unknown macros, i.e. plain elements)
+    pre = ('\\renewcommand{\\le}{\\leqslant}\\renewcommand{\\to}'
+           '{\\longrightarrow}\\newcommand{\\cdot}{\\bullet}')
+    eq = ('Aaa\n\\begin{align}\na &= b \\\\\n  &\\le c \\\\\n'
+          '  &\\cdot e \\\\\n  &\\to d.\n\\end{align}\nBbb\n')
+    for lang in ('en', 'de', 'ru'):
+        n += 1
+        try:
+            o = t2t.Options(lang=lang, pack='amsmath')
+            plain = t2t.tex2txt(eq, o)[0]
+            redef = t2t.tex2txt(pre + eq, o)[0]
+            if redef[redef.index('Aaa'):] != plain[plain.index('Aaa'):]:
+                fail(lang=lang, input=pre + eq, got=redef, expected=plain,
+                     why='redeclared relation loses its operator word')
+        except Exception as e:      # noqa
+            fail(input=pre + eq, why=repr(e))
     return _res(n, fails)
 
 
